@@ -333,15 +333,42 @@ func runHistory(name string, seed uint64, size int) []*vh.Case {
 	}
 	reorgs := 0
 	nd.CM.OnReorg(func(types.ChainIndex) { reorgs++ })
-	for _, leaf := range leaves {
-		path := t.PathFromRoot(leaf)
-		for k := 0; k < len(path); {
-			n := 1 + rng.Intn(4)
-			if k+n > len(path) {
-				n = len(path) - k
+	// the submission schedule: branch after branch, or the branches interleaved a few blocks at a
+	// time (the node then flips back and forth between branches: A -> B -> extension of A ...)
+	var batches [][]int
+	paths := make([][]int, len(leaves))
+	for i, leaf := range leaves {
+		paths[i] = t.PathFromRoot(leaf)
+	}
+	if interleave := rng.Chance(1, 2); interleave {
+		cur := make([]int, len(paths))
+		for {
+			var open []int
+			for i := range paths {
+				if cur[i] < len(paths[i]) {
+					open = append(open, i)
+				}
 			}
-			nd.CM.AddBlocks(t.Get(path[k : k+n])) // an error only means the batch held known or lighter blocks
-			k += n
+			if len(open) == 0 {
+				break
+			}
+			i := open[rng.Intn(len(open))]
+			n := min(1+rng.Intn(3), len(paths[i])-cur[i])
+			batches = append(batches, paths[i][cur[i]:cur[i]+n])
+			cur[i] += n
+		}
+	} else {
+		for _, path := range paths {
+			for k := 0; k < len(path); {
+				n := min(1+rng.Intn(4), len(path)-k)
+				batches = append(batches, path[k:k+n])
+				k += n
+			}
+		}
+	}
+	{
+		for _, batch := range batches {
+			nd.CM.AddBlocks(t.Get(batch)) // an error only means the batch held known or lighter blocks
 			syncRef(refs[0], "mid-history")
 			if rng.Chance(1, 6) {
 				syncRef(refs[1], "mid-history")
